@@ -10,6 +10,12 @@ CHECKS = {
    note="Trusted: Coq kernel; hand-written model Model/LabelScope.v of scoper/label_references.rs (tie = correspondence on parsed shapes, not a proof about the Rust code); extraction (ExtrOcamlBasic), driver.ml, harness serialiser. Print Assumptions: closed under the global context.",
    technique="Coq proof: model = specification by induction over statement trees; differential correspondence model vs implementation",
    design="5/C04"),
+
+ "C06": dict(
+   text="Machine-checked proof (Coq) that the three-flag syntax analyzer of the current tree emits, for every statement tree, exactly the codes of the structural specification (loop only last in a braced block: E800/E801; then-branch = goto or block, else-branch = goto, block or if: E840) and that the linter raises L1800 exactly once per braced branch starting with loop; correspondence on the real parsed shapes (exhaustive small trees + random).",
+   note="Trusted: Coq kernel; hand-written model Model/Syntax.v of analyzer/syntax.rs and linter.rs (tie = correspondence); extraction, driver, harness. The pinned commit violated the property (D1, refuted in Coq by a witness) and was repaired by a fix: commit; the model follows the repaired code. Print Assumptions: closed.",
+   technique="Coq proof: flag-automaton model = structural specification by induction with a flag invariant; differential correspondence",
+   design="5/C06"),
 }
 
 NOT_YET = {
